@@ -161,7 +161,7 @@ def main():
                 'non-trivial = all; distinct = distinct (key list, instruction, nested, size class).')
     chk.assumptions = ['text keys only over lower-case ASCII letters and digits (collation unambiguous)', 'descending numeric sorts put NaN last (reverse of ascending)', 'key strings are read from the same run (AVT of the key expression)']
     chk.ensure('plain', 'xvdrv')
-    n = 4000 if chk.tier == 'quick' else 120000
+    n = 4000 if chk.tier == 'quick' else 30000
     chk.run_cases('c16', 'case', range(n))
     chk.finish(min_nontrivial=100, required_stats=('sorts', 'agree_with_reference', 'nested_sorts'))
 
